@@ -314,8 +314,11 @@ def generate(seed: int, mode: str, tier: str = "quick") -> dict:
         if how == "rng":
             emit(w, "RNG", how=r.choice(["reseed", "draw"]), x=r.randrange(1, 9999))
         elif how == "clock":
-            if r.random() < 0.4:
+            u = r.random()
+            if u < 0.3:
                 emit(w, "CLOCK", how="native_jump", x=r.choice([6.0, 30.0, 3600.0]), n=r.choice([2, 10, 60, 400]))
+            elif u < 0.55:
+                emit(w, "CLOCK", how="date", x=86400.0 * r.choice([1, -1, 35, 400, 3660, -3650, -12000]), n=1)
             else:
                 emit(w, "CLOCK", how=r.choice(["jump", "skew", "stall"]), x=r.choice([-3600.0, 7.0, 86400.0]), n=1)
         elif how == "thread":
